@@ -1,9 +1,389 @@
 import NriModel.Events
-/-! Property theorems for C14 (conversions, copies, optional constructors, event masks). -/
+import NriModel.Convert
+import NriModel.Lemmas.Events
+import NriModel.Lemmas.Convert
+/-!
+Property theorems for C14 — "NRI/OCI conversions are lossless and copies share no state".
+
+Reading guide.  `OciResources`/`NriResources` are the two representations; `Carried` is the flat
+record of the fields BOTH carry, and `.carried` reads a value into it, a nil `Memory`/`CPU`
+section reading as "every scalar of the section unset".  An optional scalar is an `Option`:
+`none` = unset, `some 0` = set to zero — so an equation between `Option`s is exactly "unset
+stays unset and a set value stays set to the same value, zero included".  Maps are association
+lists with distinct keys (`AList.WF`), which is what a Go map is.
+
+What is NOT here: "copies share no mutable state" is a statement about Go memory, which a
+value model cannot express.  It is measured by the harness (differential mutation test, case
+kind `alias`), not proved.
+-/
 namespace Nri.Props.C14
-open Nri.Events
+open Nri.Events Nri.Convert
+
+/-! ## Event masks -/
 
 /-- `ValidEvents` is the thirteen low bits. -/
-theorem valid_eq : valid = 0x1fff#32 := by decide
+theorem valid_eq : valid = 0x1fff#32 := Nri.Events.valid_eq
+
+/-- **Printing a mask and parsing it back returns the mask** — for every non-empty mask within
+`ValidEvents` (all 8191 of them, by a structural argument, not by enumeration):
+`PrettyString` is the comma-join of the names of the set events in order; `ParseEventMask`
+lower-cases, splits at commas, and folds the parse table over the pieces. -/
+theorem C14_mask (m : BitVec 32) (h0 : m ≠ 0#32) (hv : m &&& ~~~valid = 0#32) :
+    parse [pretty m] = some m := by
+  have hes := evs_le_13 hv
+  have hfold := foldl_set_evs_valid hv
+  have hne : evs 14 1 m ≠ [] := by
+    intro h
+    rw [h] at hfold
+    exact h0 hfold.symm
+  have hlow : toLower (pretty m) = joinWith [','] ((evs 14 1 m).map lcName) := by
+    rw [pretty_eq_of_valid hv, toLower_joinWith, List.map_map]
+    rfl
+  have hsplit : splitOnChar ',' (toLower (pretty m)) = (evs 14 1 m).map lcName := by
+    rw [hlow]
+    apply splitOnChar_joinWith
+    · simpa using hne
+    · intro x hx
+      obtain ⟨e, he, rfl⟩ := List.mem_map.mp hx
+      obtain ⟨h1, h13⟩ := hes e he
+      exact (name_facts e (by rw [List.mem_range'_1]; omega)).1
+  unfold parse
+  simp only [List.foldlM_cons, List.foldlM_nil]
+  unfold parseOne
+  rw [hsplit, foldlM_parseName _ _ hes, hfold]
+  rfl
+
+example : (0x1555#32 : BitVec 32) ≠ 0#32 ∧ (0x1555#32 &&& ~~~valid = 0#32) ∧
+    pretty 0x1555#32 = str "RunPodSandbox,RemovePodSandbox,PostCreateContainer,PostStartContainer,PostUpdateContainer,RemoveContainer,PostUpdatePodSandbox" := by
+  decide +kernel
+
+/-- The domain of `C14_mask` is exactly the 8191 masks 1 … 0x1fff. -/
+theorem C14_mask_domain (m : BitVec 32) :
+    (m ≠ 0#32 ∧ m &&& ~~~valid = 0#32) ↔ (1 ≤ m.toNat ∧ m.toNat ≤ 8191) := by
+  rw [within_valid_iff]
+  constructor
+  · rintro ⟨h0, h⟩
+    refine ⟨?_, h⟩
+    rcases Nat.eq_zero_or_pos m.toNat with hz | hz
+    · exact absurd (BitVec.eq_of_toNat_eq (by simpa using hz)) h0
+    · exact hz
+  · rintro ⟨h1, h⟩
+    refine ⟨?_, h⟩
+    intro hz
+    rw [hz] at h1
+    simp at h1
+
+/-- The empty mask is the excluded point: it prints as "" and "" is not an event name. -/
+theorem C14_mask_empty : pretty 0#32 = [] ∧ parse [pretty 0#32] = none := by decide
+
+/-- Algebra of `IsSet`/`Set`/`Clear` for event numbers 1 … 32 (used by C06, C15, C17):
+setting makes it set, clearing makes it unset, and neither touches any other event. -/
+theorem C14_mask_algebra (m : BitVec 32) (e e' : Nat) (h1 : 1 ≤ e) (h32 : e ≤ 32) (h1' : 1 ≤ e') (hne : e ≠ e') :
+    isSet (set m e) e = true ∧ isSet (clear m e) e = false ∧
+    isSet (set m e) e' = isSet m e' ∧ isSet (clear m e) e' = isSet m e' :=
+  ⟨isSet_set_self m h32, isSet_clear_self m e, isSet_set_other m h1 h1' hne, isSet_clear_other m h1 h1' hne⟩
+
+example : isSet (set 0#32 4) 4 = true ∧ isSet (set 0#32 4) 5 = false := by decide
+
+/-- `ValidEvents` contains exactly the events 1 … 13. -/
+theorem C14_valid_events (e : Nat) (h : 1 ≤ e) : isSet valid e = decide (e ≤ 13) := isSet_valid h
+
+/-! ## Resources -/
+
+/-- **OCI → NRI → OCI.**  Exactly what comes back (`ociNorm`): every field both representations
+carry, unchanged; the OCI-only fields (`CheckBeforeUpdate`, `Burst`, `Idle`, `BlockIO`,
+`Network`, `Rdma`) dropped; and an absent `Memory`/`CPU` section returned as a present section
+with every field unset.  Consequently the carried view is preserved. -/
+theorem C14_resources_oci_nri_oci (o : OciResources) (hwf : AList.WF o.unified) :
+    toOCIResources (fromOCIResources (some o)) = some (ociNorm o) ∧ (ociNorm o).carried = o.carried :=
+  ⟨toOCI_fromOCI o hwf, ociNorm_carried o⟩
+
+/-- **NRI → OCI → NRI.**  Exactly what comes back (`nriNorm`): every carried field unchanged;
+the NRI-only `BlockioClass`/`RdtClass` dropped; nil `Memory`/`Cpu` sections returned as present
+sections with every field unset. -/
+theorem C14_resources_nri_oci_nri (r : NriResources) (hwf : AList.WF r.unified) :
+    fromOCIResources (toOCIResources (some r)) = some (nriNorm r) ∧ (nriNorm r).carried = r.carried :=
+  ⟨fromOCI_toOCI r hwf, nriNorm_carried r⟩
+
+/-- a resources value with a limit SET TO ZERO next to an UNSET swap, hugepages, a unified map -/
+def exampleNri : NriResources :=
+  { memory := some { emptyNriMemory with limit := some (I64.ofInt 0), kernel := some (I64.ofInt (-1)) },
+    cpu := none, hugepages := [⟨str "2MB", U64.ofNat 0⟩], blockioClass := some [], rdtClass := none,
+    unified := [(str "memory.high", str "1")], devices := [⟨true, str "c", some (I64.ofInt 0), none, str "rwm"⟩],
+    pids := some ⟨I64.ofInt 0⟩ }
+
+example : AList.WF exampleNri.unified ∧ exampleNri.carried.memLimit = some (I64.ofInt 0) ∧
+    exampleNri.carried.memSwap = none ∧ nriNorm exampleNri ≠ exampleNri :=
+  ⟨by unfold AList.WF AList.keys; decide, by decide⟩
+
+/-- Each single conversion already preserves the carried view (so does any composition). -/
+theorem C14_resources_one_way (o : OciResources) (r : NriResources)
+    (ho : AList.WF o.unified) (hr : AList.WF r.unified) :
+    (∃ n, fromOCIResources (some o) = some n ∧ n.carried = o.carried) ∧
+    (∃ o', toOCIResources (some r) = some o' ∧ o'.carried = r.carried) :=
+  ⟨fromOCI_carried o ho, toOCI_carried r hr⟩
+
+/-- nil converts to nil, in both directions and for `Copy`. -/
+theorem C14_resources_nil :
+    fromOCIResources none = none ∧ toOCIResources none = none ∧ copyResources none = none :=
+  ⟨rfl, rfl, rfl⟩
+
+/-- **Unset versus set-to-zero.**  For each of the thirteen optional scalars (and the optional
+`Pids` section), whether it is unset, set to zero or set to any other value survives both round
+trips: the equations are between `Option`s, so `none ↦ none` and `some v ↦ some v` for every
+`v`, `0`/`false` included. -/
+theorem C14_optional_preserved (o b : OciResources) (r n : NriResources)
+    (ho : AList.WF o.unified) (hr : AList.WF r.unified)
+    (hb : toOCIResources (fromOCIResources (some o)) = some b)
+    (hn : fromOCIResources (toOCIResources (some r)) = some n) :
+    (b.carried.memLimit = o.carried.memLimit ∧ b.carried.memReservation = o.carried.memReservation ∧
+     b.carried.memSwap = o.carried.memSwap ∧ b.carried.memKernel = o.carried.memKernel ∧
+     b.carried.memKernelTcp = o.carried.memKernelTcp ∧ b.carried.memSwappiness = o.carried.memSwappiness ∧
+     b.carried.memDisableOom = o.carried.memDisableOom ∧ b.carried.memUseHierarchy = o.carried.memUseHierarchy ∧
+     b.carried.cpuShares = o.carried.cpuShares ∧ b.carried.cpuQuota = o.carried.cpuQuota ∧
+     b.carried.cpuPeriod = o.carried.cpuPeriod ∧ b.carried.cpuRtRuntime = o.carried.cpuRtRuntime ∧
+     b.carried.cpuRtPeriod = o.carried.cpuRtPeriod ∧ b.carried.pids = o.carried.pids) ∧
+    (n.carried.memLimit = r.carried.memLimit ∧ n.carried.memReservation = r.carried.memReservation ∧
+     n.carried.memSwap = r.carried.memSwap ∧ n.carried.memKernel = r.carried.memKernel ∧
+     n.carried.memKernelTcp = r.carried.memKernelTcp ∧ n.carried.memSwappiness = r.carried.memSwappiness ∧
+     n.carried.memDisableOom = r.carried.memDisableOom ∧ n.carried.memUseHierarchy = r.carried.memUseHierarchy ∧
+     n.carried.cpuShares = r.carried.cpuShares ∧ n.carried.cpuQuota = r.carried.cpuQuota ∧
+     n.carried.cpuPeriod = r.carried.cpuPeriod ∧ n.carried.cpuRtRuntime = r.carried.cpuRtRuntime ∧
+     n.carried.cpuRtPeriod = r.carried.cpuRtPeriod ∧ n.carried.pids = r.carried.pids) := by
+  have e1 : b.carried = o.carried := by
+    rw [toOCI_fromOCI o ho] at hb
+    rw [← Option.some.inj hb, ociNorm_carried]
+  have e2 : n.carried = r.carried := by
+    rw [fromOCI_toOCI r hr] at hn
+    rw [← Option.some.inj hn, nriNorm_carried]
+  rw [e1, e2]
+  simp
+
+example : (fromOCIResources (toOCIResources (some exampleNri))).map (fun n => (n.carried.memLimit, n.carried.memSwap)) =
+    some (some (I64.ofInt 0), none) := by decide
+
+/-- The points where a round trip is NOT the identity, stated: NRI → OCI → NRI returns its
+argument iff both sections were present and no class was set; OCI → NRI → OCI returns its
+argument iff both sections were present and no OCI-only field was populated. -/
+theorem C14_resources_not_carried (r : NriResources) (o : OciResources) :
+    (nriNorm r = r ↔ r.memory.isSome ∧ r.cpu.isSome ∧ r.blockioClass = none ∧ r.rdtClass = none) ∧
+    (ociNorm o = o ↔ (∃ m, o.memory = some m ∧ m.checkBeforeUpdate = none) ∧
+                      (∃ c, o.cpu = some c ∧ c.burst = none ∧ c.idle = none) ∧ o.uncarried = []) := by
+  constructor
+  · obtain ⟨mem, cpu, hp, bc, rc, uni, dev, pids⟩ := r
+    cases mem <;> cases cpu <;> simp [nriNorm, eq_comm]
+  · obtain ⟨dev, mem, cpu, pids, hp, uni, unc⟩ := o
+    cases mem with
+    | none => cases cpu <;> simp [ociNorm]
+    | some m =>
+      cases cpu with
+      | none => simp [ociNorm]
+      | some c =>
+        obtain ⟨a1, a2, a3, a4, a5, a6, a7, a8, a9⟩ := m
+        obtain ⟨b1, b2, b3, b4, b5, b6, b7, b8, b9⟩ := c
+        simp [ociNorm, eq_comm]
+
+/-- The order in which Go's `range` happens to yield the entries of `Unified` is irrelevant:
+copying any permutation of the entries yields the same map. -/
+theorem C14_map_order_irrelevant (m perm : AList Str Str) (hwf : AList.WF m) (hp : perm.Perm m) :
+    ∀ k, AList.lookup (dupMap perm) k = AList.lookup m k := dupMap_perm m perm hwf hp
+
+example : AList.WF [(str "a", str "1"), (str "b", str "2")] ∧
+    [(str "b", str "2"), (str "a", str "1")].Perm [(str "a", str "1"), (str "b", str "2")] :=
+  ⟨by unfold AList.WF AList.keys; decide, List.Perm.swap _ _ _⟩
+
+/-! ## Copy -/
+
+/-- **`Copy` is equal to its source** on memory, CPU, hugepage limits, unified, pids and the two
+class fields.  (It is the source with `Devices` dropped: the code does not copy the device
+cgroup rules, and the property does not list them.) -/
+theorem C14_copy_eq (r : NriResources) (hwf : AList.WF r.unified) :
+    ∃ c, copyResources (some r) = some c ∧
+      c.memory = r.memory ∧ c.cpu = r.cpu ∧ c.hugepages = r.hugepages ∧ c.unified = r.unified ∧
+      c.pids = r.pids ∧ c.blockioClass = r.blockioClass ∧ c.rdtClass = r.rdtClass ∧ c.devices = [] :=
+  ⟨_, copy_eq r hwf, rfl, rfl, rfl, rfl, rfl, rfl, rfl, rfl⟩
+
+example : (copyResources (some exampleNri)).map (fun c => (c.memory, c.blockioClass, c.devices)) =
+    some (exampleNri.memory, some [], []) := by decide
+
+/-! ## Optional constructors -/
+
+/-- **Constructors: nil ↦ unset, a value ↦ exactly that value** — for every constructor and every
+dynamic argument type its type switch accepts.  For `Int64` given an unsigned argument and
+`UInt64` given a signed one the stored bit pattern is the argument's, and the stored VALUE is
+the argument's value exactly when it is representable (`< 2^63`, resp. `≥ 0`). -/
+theorem C14_ctor :
+    -- String, Int, Int32, UInt32, Bool share one shape
+    (∀ (α : Type) (v : α), optOf (.val v) = some v ∧ optOf (.ptr (some v)) = some v ∧
+        optOf (.opt (some v)) = some v ∧ optOf (Arg.ptr (none : Option α)) = none ∧
+        optOf (Arg.opt (none : Option α)) = none) ∧
+    -- Int64
+    (∀ v : I64, optInt64 (.int v) = some v ∧ optInt64 (.int64 v) = some v ∧
+        optInt64 (.pInt64 (some v)) = some v ∧ optInt64 (.opt (some v)) = some v) ∧
+    (optInt64 (.pInt64 none) = none ∧ optInt64 (.pUint64 none) = none ∧ optInt64 (.opt none) = none) ∧
+    (∀ u : U64, u.val < 2 ^ 63 → ∀ a ∈ [Int64Arg.uint u, .uint64 u, .pUint64 (some u)],
+        ∃ w, optInt64 a = some w ∧ w.val = (u.val : Int)) ∧
+    -- UInt64
+    (∀ v : U64, optUInt64 (.uint v) = some v ∧ optUInt64 (.uint64 v) = some v ∧
+        optUInt64 (.pUint64 (some v)) = some v ∧ optUInt64 (.opt (some v)) = some v) ∧
+    (optUInt64 (.pInt64 none) = none ∧ optUInt64 (.pUint64 none) = none ∧ optUInt64 (.opt none) = none) ∧
+    (∀ i : I64, 0 ≤ i.val → ∀ a ∈ [UInt64Arg.int i, .int64 i, .pInt64 (some i)],
+        ∃ w, optUInt64 a = some w ∧ (w.val : Int) = i.val) ∧
+    -- FileMode
+    (∀ v : U32, optFileMode (.mode v) = some v ∧ optFileMode (.u32 v) = some v ∧
+        optFileMode (.pMode (some v)) = some v ∧ optFileMode (.opt (some v)) = some v) ∧
+    (optFileMode (.pMode none) = none ∧ optFileMode (.opt none) = none) ∧
+    -- Get
+    (∀ (α : Type) (o : Option α), optGet o = o) := by
+  refine ⟨fun _ _ => ⟨rfl, rfl, rfl, rfl, rfl⟩, fun _ => ⟨rfl, rfl, rfl, rfl⟩, ⟨rfl, rfl, rfl⟩, ?_,
+    fun _ => ⟨rfl, rfl, rfl, rfl⟩, ⟨rfl, rfl, rfl⟩, ?_, fun _ => ⟨rfl, rfl, rfl, rfl⟩, ⟨rfl, rfl⟩,
+    fun _ o => optGet_eq o⟩
+  · intro u hu a ha
+    have := (U64.toI64_val u).mpr hu
+    simp only [List.mem_cons, List.mem_nil_iff, or_false] at ha
+    rcases ha with rfl | rfl | rfl <;> exact ⟨_, rfl, this⟩
+  · intro i hi a ha
+    have := (I64.toU64_val i).mpr hi
+    simp only [List.mem_cons, List.mem_nil_iff, or_false] at ha
+    rcases ha with rfl | rfl | rfl <;> exact ⟨_, rfl, this⟩
+
+example : optInt64 (.pInt64 (some (I64.ofInt 0))) = some (I64.ofInt 0) ∧ optInt64 (.pInt64 none) = none ∧
+    (some (I64.ofInt 0) : Option I64) ≠ none := by decide
+
+/-- The excluded points of `C14_ctor`, stated.  (1) A value that the target type cannot
+represent wraps: the stored value differs from the argument's exactly then.  (2) A dynamic type
+the switch does not list (`int32` handed to `Int64`, `int64` handed to `Int`, …) falls to
+`default: return nil` — a VALUE becomes UNSET. -/
+theorem C14_ctor_excluded :
+    (∀ u : U64, ¬ u.val < 2 ^ 63 → ∃ w, optInt64 (.uint64 u) = some w ∧ w.val ≠ (u.val : Int)) ∧
+    (∀ i : I64, ¬ 0 ≤ i.val → ∃ w, optUInt64 (.int64 i) = some w ∧ (w.val : Int) ≠ i.val) ∧
+    (optInt64 (.uint64 (U64.ofNat (2 ^ 63)))).map I64.val = some (-(2 ^ 63 : Int)) ∧
+    (optUInt64 (.int64 (I64.ofInt (-1)))).map U64.val = some (2 ^ 64 - 1) ∧
+    optInt64 .other = none ∧ optUInt64 .other = none ∧ optFileMode .other = none ∧
+    (∀ α : Type, optOf (Arg.other : Arg α) = none) := by
+  refine ⟨fun u hu => ⟨_, rfl, fun h => hu ((U64.toI64_val u).mp h)⟩,
+    fun i hi => ⟨_, rfl, fun h => hi ((I64.toU64_val i).mp h)⟩, by decide, by decide, rfl, rfl, rfl, fun _ => rfl⟩
+
+/-! ## Mounts, devices, hooks -/
+
+/-- **Mounts.**  OCI → NRI → OCI returns every mount with its destination, type, source and
+options (the OCI-only id mappings dropped); NRI → OCI → NRI is the identity, whatever the
+propagation query; the query pointer, when given, ends up holding the last of
+`rprivate`/`rshared`/`rslave` among the options, else keeps its content. -/
+theorem C14_mounts (ms : List OciMount) (ns : List NriMount) (q : Option Str) (init : Str) :
+    (fromOCIMounts ms).map (fun m => (mountToOCI m none).1) = ms.map (fun m => { m with idMapped := false }) ∧
+    fromOCIMounts (ns.map (fun m => (mountToOCI m q).1)) = ns ∧
+    (∀ m : NriMount, (mountToOCI m none).2 = none ∧
+      (mountToOCI m (some init)).2 = some (m.options.foldl (fun a o => if isPropagation o then o else a) init)) := by
+  refine ⟨?_, ?_, fun m => ⟨?_, ?_⟩⟩
+  · induction ms with
+    | nil => rfl
+    | cons m rest ih =>
+      simp only [fromOCIMounts, List.map_cons, List.map_map] at ih ⊢
+      rw [ih]
+      simp [mountToOCI_fst]
+  · induction ns with
+    | nil => rfl
+    | cons m rest ih =>
+      simp only [fromOCIMounts, List.map_cons, List.map_map] at ih ⊢
+      rw [ih]
+      simp [mountToOCI_fst]
+  · unfold mountToOCI
+    have := mountOptLoop_snd_none m.options []
+    cases h : mountOptLoop m.options [] none with
+    | mk a b => simp [h] at this ⊢; exact this
+  · unfold mountToOCI
+    have := mountOptLoop_snd_some m.options [] init
+    cases h : mountOptLoop m.options [] (some init) with
+    | mk a b => simp [h] at this ⊢; exact this
+
+example : (mountToOCI ⟨str "/d", str "bind", str "/s", [str "ro", str "rshared", str "rslave", str "x"]⟩ (some [])).2 =
+    some (str "rslave") := by decide
+
+/-- **Devices.**  Both round trips are the identity, file mode / uid / gid included with their
+unset-versus-zero status; a nil `*LinuxDevice` converts to the zero device. -/
+theorem C14_devices (ds : List Device) :
+    (fromOCIDevices ds).map (fun d => deviceToOCI (some d)) = ds ∧
+    fromOCIDevices (ds.map (fun d => deviceToOCI (some d))) = ds ∧
+    deviceToOCI none = zeroDevice := by
+  refine ⟨?_, ?_, rfl⟩
+  · induction ds with
+    | nil => rfl
+    | cons d rest ih =>
+      simp only [fromOCIDevices, List.map_cons, List.map_map] at ih ⊢
+      rw [ih]
+      cases d; simp [deviceToOCI, optUInt32]
+  · induction ds with
+    | nil => rfl
+    | cons d rest ih =>
+      simp only [fromOCIDevices, List.map_cons, List.map_map] at ih ⊢
+      rw [ih]
+      cases d; simp [deviceToOCI, optUInt32]
+
+example : fromOCIDevices [⟨str "/dev/x", str "c", I64.ofInt 1, I64.ofInt 2, some (U32.ofNat 0), none, some (U32.ofNat 0)⟩] =
+    [⟨str "/dev/x", str "c", I64.ofInt 1, I64.ofInt 2, some (U32.ofNat 0), none, some (U32.ofNat 0)⟩] := by decide
+
+/-- **Hooks.**  Both round trips are the identity on every hook (path, args, env, and the timeout
+with its unset-versus-zero status), list by list; `FromOCIHooks(nil) = nil`. -/
+theorem C14_hooks (hs : List Hook) (h : Hooks) :
+    (fromOCIHookSlice hs).map hookToOCI = hs ∧ fromOCIHookSlice (hs.map hookToOCI) = hs ∧
+    fromOCIHooks (some h) = some h ∧ fromOCIHooks none = none := by
+  have key : ∀ l : List Hook, fromOCIHookSlice l = l := by
+    intro l
+    induction l with
+    | nil => rfl
+    | cons x rest ih =>
+      simp only [fromOCIHookSlice, List.map_cons] at ih ⊢
+      rw [ih]
+      cases x; simp [optInt]
+  have key2 : ∀ l : List Hook, l.map hookToOCI = l := by
+    intro l
+    induction l with
+    | nil => rfl
+    | cons x rest ih =>
+      simp only [List.map_cons]
+      rw [ih]
+      cases x; simp [hookToOCI]
+  refine ⟨by rw [key, key2], by rw [key2, key], ?_, rfl⟩
+  cases h; simp [fromOCIHooks, key]
+
+example : fromOCIHookSlice [⟨str "/h", [str "a"], [], some (I64.ofInt 0)⟩, ⟨str "/g", [], [str "K=V"], none⟩] =
+    [⟨str "/h", [str "a"], [], some (I64.ofInt 0)⟩, ⟨str "/g", [], [str "K=V"], none⟩] := by decide
+
+/-! ## Environment -/
+
+/-- **Environment.**  A key without `=` round-trips NRI → OCI → NRI (whatever the value, `=`s
+included); an OCI entry that contains `=` round-trips OCI → NRI → OCI, split at the FIRST `=`. -/
+theorem C14_env (kvs : List KeyValue) (env : List Str)
+    (hk : ∀ kv ∈ kvs, '=' ∉ kv.key) (he : ∀ s ∈ env, '=' ∈ s) :
+    fromOCIEnv (kvs.map kvToOCI) = kvs ∧ (fromOCIEnv env).map kvToOCI = env := by
+  constructor
+  · induction kvs with
+    | nil => rfl
+    | cons kv rest ih =>
+      simp only [fromOCIEnv, List.map_cons, List.map_map] at ih ⊢
+      rw [ih (fun x hx => hk x (by simp [hx])), fromOCIEnvEntry_kvToOCI kv (hk kv (by simp))]
+  · induction env with
+    | nil => rfl
+    | cons s rest ih =>
+      simp only [fromOCIEnv, List.map_cons, List.map_map] at ih ⊢
+      rw [ih (fun x hx => he x (by simp [hx])), kvToOCI_fromOCIEnvEntry, joinKV_splitFirstEq]
+      simp [he s (by simp)]
+
+example : fromOCIEnv [str "PATH=/bin:/usr/bin", str "A=b=c", str "E="] =
+    [⟨str "PATH", str "/bin:/usr/bin"⟩, ⟨str "A", str "b=c"⟩, ⟨str "E", []⟩] := by decide
+
+/-- The excluded point of `C14_env`, stated: an OCI entry WITHOUT `=` comes back with `=`
+appended (NRI cannot tell `NAME` from `NAME=`). -/
+theorem C14_env_noeq (s : Str) (h : '=' ∉ s) : (fromOCIEnv [s]).map kvToOCI = [s ++ ['=']] := by
+  simp only [fromOCIEnv, List.map_cons, List.map_nil]
+  rw [kvToOCI_fromOCIEnvEntry, joinKV_splitFirstEq]
+  simp [h]
+
+example : (fromOCIEnv [str "NAME"]).map kvToOCI = [str "NAME="] := by decide
+
+/-- The other excluded point: a KEY containing `=` does not round-trip (the split moves the
+tail of the key into the value). -/
+theorem C14_env_eqkey : fromOCIEnv [kvToOCI ⟨str "a=b", str "c"⟩] = [⟨str "a", str "b=c"⟩] := by decide
 
 end Nri.Props.C14
